@@ -539,6 +539,26 @@ func (g *verifGen) addDir(explicit bool) {
 	}
 }
 
+// repeatDir announces an existing directory once more, anywhere after its first entry: same
+// attributes, possibly another spelling of the name (inside the proved fragment SpecConformingR).
+func (g *verifGen) repeatDir() {
+	var idx []int
+	for i := range g.ents {
+		if g.ents[i].Type == "dir" && verifClean(g.ents[i].Name) != "" {
+			idx = append(idx, i)
+		}
+	}
+	if len(idx) == 0 {
+		g.addDir(true)
+		return
+	}
+	e := g.ents[idx[g.rnd.Intn(len(idx))]]
+	e.Name = g.spell(verifClean(e.Name), true)
+	e.Xattrs = append([]verifKV(nil), e.Xattrs...)
+	g.ents = append(g.ents, e)
+	g.feat["dir-repeated-late"] = true
+}
+
 func (g *verifGen) addFile() {
 	r := g.rnd
 	name := g.freshName(g.parent())
@@ -702,8 +722,12 @@ func verifGenVariant(rnd *verifutil.Rand, label, compr, kind string) *verifLayer
 	g := verifNewGen(rnd)
 	class := "conf"
 	n := 1 + rnd.Intn(14)
+	late := 0
+	if kind == "" {
+		late = 2 // directories announced again later: only in the plain conforming stream
+	}
 	for i := 0; i < n; i++ {
-		switch rnd.Pick(3, 2, 5, 2, 3) {
+		switch rnd.Pick(3, 2, 5, 2, 3, late) {
 		case 0:
 			g.addDir(true)
 		case 1:
@@ -712,8 +736,10 @@ func verifGenVariant(rnd *verifutil.Rand, label, compr, kind string) *verifLayer
 			g.addFile()
 		case 3:
 			g.addSpecial()
-		default:
+		case 4:
 			g.addHardlink()
+		default:
+			g.repeatDir()
 		}
 	}
 	if len(g.ents) == 0 {
@@ -1370,6 +1396,22 @@ func verifRegressionScenarios() []*verifLayer {
 		vOne(vE("z/fifo", "fifo")),
 		vOne(vE("z/c", "char", vDev(10, 11))),
 		vOne(vE("z/b", "block", vDev(100, 101))),
+	), nil, verifStd))
+	// directories announced again later — after children, after hardlinks into them, nested, three
+	// times, by other spellings — with the same attributes (memory keeps the last entry, db the first)
+	ls = append(ls, verifScenario("dir-repeated-late", "conf", "gzip", vCat(
+		vOne(vE("p/", "dir", vMode(0750), vOwner(7, 8))),
+		vOne(vE("p/q/", "dir", vMode(0711))),
+		vFile("p/q/f", "ffff", nil),
+		vOne(vE("./p", "dir", vMode(0750), vOwner(7, 8))),
+		vOne(vE("p/q/l", "hardlink", vLink("p/q/f"))),
+		vOne(vE("p/../p/q", "dir", vMode(0711))),
+		vFile("p/g", "gggggggg", []int{4}),
+		vOne(vE("imp/deep/d/", "dir")),
+		vOne(vE("p/q/", "dir", vMode(0711))),
+		vOne(vE("imp/deep/d", "dir")),
+		vOne(vE("imp/deep/d/s", "symlink", vLink("../../../p"))),
+		vOne(vE("/p/", "dir", vMode(0750), vOwner(7, 8))),
 	), nil, verifStd))
 	// chunked files, files without per-file digest, several chunks and files in one stream
 	{
